@@ -121,6 +121,10 @@ class UnionMatcher(AdditiveBiMatcher):
 
     _id = None
 
+    def reset(self):
+        self._id = None
+        AdditiveBiMatcher.reset(self)
+
     def replace(self, minquality=0):
         a = self.a
         b = self.b
